@@ -174,7 +174,7 @@ def evalWE (O : Operands ρ) : WE → Nat
 def evalRE (O : Operands ρ) (L : Loc) : RE → Option ρ
   | .op k => O.rule k
   | .argsAt b n => O.rule (b + L.num n)
-  | .argsLast b k => O.rule (b + O.word k - 1)
+  | .argsLast b k => O.rule (b + (O.word k - 1))     -- `len - 1` is computed first
 
 def evalNE (L : Loc) (s : St) : NE → Nat
   | .capCount => s.caps.length
